@@ -20,7 +20,8 @@ Fixpoint lookup (l : list (rgba * N)) (c : rgba) : N :=
 Inductive c05_case :=
 | Case (cp : caps) (c : cmd) (oracle : list (rgba * N)) (impl : option (list N))
   (* several commands through ONE encoder object into one output *)
-| Stream (cp : caps) (cs : list cmd) (oracle : list (rgba * N)) (impl : option (list N)).
+    (* `pre`: bytes already in the output (a complete prefix) before the stream is encoded *)
+| Stream (cp : caps) (pre : list N) (cs : list cmd) (oracle : list (rgba * N)) (impl : option (list N)).
 
 Definition oracle_ok (d : depth) (l : list (rgba * N)) : bool :=
   match d with
@@ -46,7 +47,7 @@ Definition c05_check (k : c05_case) : bool * bool :=
             ops_eqb (vt_ops ib) (denote pal pal cp c) (* means exactly the command *)
             && (is_raw c || vt_complete ib)                        (* complete, self-contained *)
         end )
-  | Stream cp cs oracle impl =>
+  | Stream cp pre cs oracle impl =>
       let pal := lookup oracle in
       ( match encode_stream pal pal cp cs, impl with
         | Ok bs, Some ib => nlist_eqb bs ib
@@ -57,7 +58,9 @@ Definition c05_check (k : c05_case) : bool * bool :=
         match impl with
         | None => false
         | Some ib =>
-            ops_eqb (vt_ops ib) (flat_map (denote pal pal cp) cs) && vt_complete ib
+            vt_complete pre
+            && ops_eqb (vt_ops (pre ++ ib)) (vt_ops pre ++ flat_map (denote pal pal cp) cs)
+            && vt_complete (pre ++ ib)
         end )
   end.
 
